@@ -9,9 +9,10 @@ Model of `QueryTemplateParams.UnmarshalJSON` / `Overwrite`
 `runQueryFromCursor`, `templateParamsToQuery`
 (`/repo/internal/controller/ledger/controller_default.go`).
 
-`QueryTemplateParams.UnmarshalJSON` decodes the object into a *fresh* struct and
-then assigns `PIT`, `OOT`, `Expand` and `PageSize` unconditionally; only the sort
-column / order are kept when `sort` is absent.  The model follows the code.
+`QueryTemplateParams.UnmarshalJSON` decodes the object into a fresh struct and
+assigns `PIT`, `OOT`, `Expand`, `PageSize` and the sort column / order only when
+the key is present (fix `04cc4e9`; before it the first four were assigned
+unconditionally — `applyParamsPreFix`).
 -/
 namespace Ledger.Query
 
@@ -78,14 +79,8 @@ def optDate (parseDate : String → Option Int) : Option String → Except PErr 
     | some t => .ok (some t)
     | none => .error .badDate
 
-/-- `QueryTemplateParams.UnmarshalJSON` followed by the decoding of the same
-    object into `Opts` (one iteration of `Overwrite`). -/
-def applyParams (parseDate : String → Option Int) (p : Params) (j : ParamsJson) :
-    Except PErr Params := do
-  let pit ← optDate parseDate j.endTime
-  let oot ← optDate parseDate j.startTime
-  -- unconditional assignments
-  let p := { p with pit, oot, expand := j.expand.getD [], pageSize := j.pageSize.getD 0 }
+/-- The sort / opts part of `UnmarshalJSON` (unchanged by the fix). -/
+def applySortOpts (p : Params) (j : ParamsJson) : Except PErr Params := do
   let p ← (match j.sort with
     | none | some "" => pure p
     | some s =>
@@ -101,6 +96,29 @@ def applyParams (parseDate : String → Option Int) (p : Params) (j : ParamsJson
   pure { p with opts := {
     useInsertionDate := j.insertionDate.getD p.opts.useInsertionDate,
     groupLvl := j.groupBy.getD p.opts.groupLvl } }
+
+/-- `QueryTemplateParams.UnmarshalJSON` followed by the decoding of the same
+    object into `Opts` (one iteration of `Overwrite`): a key that is present
+    overrides, an absent (or `null`) key keeps the current value. -/
+def applyParams (parseDate : String → Option Int) (p : Params) (j : ParamsJson) :
+    Except PErr Params := do
+  let pit ← optDate parseDate j.endTime
+  let oot ← optDate parseDate j.startTime
+  let p := { p with
+    pit := if j.endTime.isSome then pit else p.pit,
+    oot := if j.startTime.isSome then oot else p.oot,
+    expand := j.expand.getD p.expand,
+    pageSize := j.pageSize.getD p.pageSize }
+  applySortOpts p j
+
+/-- The same before fix `04cc4e9`: `PIT`, `OOT`, `Expand`, `PageSize` assigned
+    unconditionally (zero values when the key is absent). -/
+def applyParamsPreFix (parseDate : String → Option Int) (p : Params) (j : ParamsJson) :
+    Except PErr Params := do
+  let pit ← optDate parseDate j.endTime
+  let oot ← optDate parseDate j.startTime
+  let p := { p with pit, oot, expand := j.expand.getD [], pageSize := j.pageSize.getD 0 }
+  applySortOpts p j
 
 /-- `Overwrite(others...)`: `none` = empty / `null` raw message (skipped). -/
 def overwrite (parseDate : String → Option Int) (p : Params) :
@@ -187,29 +205,15 @@ def runQuery {C D R : Type} (parseDate : String → Option Int) (decode : C → 
   | .error e => .error e
   | .ok q => .ok (t.tmpl.resource, paginate t.tmpl.resource q)
 
-/-- The "natural" merge of parameter objects the property describes: a key given
-    by a later object overrides, an absent key keeps the earlier value. -/
-def mergeParamsSpec (parseDate : String → Option Int) (p : Params) (j : ParamsJson) :
-    Except PErr Params := do
-  let pit ← optDate parseDate j.endTime
-  let oot ← optDate parseDate j.startTime
-  let p := { p with
-    pit := if j.endTime.isSome then pit else p.pit,
-    oot := if j.startTime.isSome then oot else p.oot,
-    expand := j.expand.getD p.expand,
-    pageSize := j.pageSize.getD p.pageSize }
-  applyParams parseDate p { j with
-    endTime := none, startTime := none, expand := none, pageSize := none } |>.map fun q =>
-      { q with pit := p.pit, oot := p.oot, expand := p.expand, pageSize := p.pageSize }
-
-def overwriteSpec (parseDate : String → Option Int) (p : Params) :
+/-- `Overwrite` before fix `04cc4e9`. -/
+def overwritePreFix (parseDate : String → Option Int) (p : Params) :
     List (Option ParamsJson) → Except PErr Params
   | [] => .ok p
-  | none :: rest => overwriteSpec parseDate p rest
+  | none :: rest => overwritePreFix parseDate p rest
   | some j :: rest =>
-    match mergeParamsSpec parseDate p j with
+    match applyParamsPreFix parseDate p j with
     | .error e => .error e
-    | .ok p' => overwriteSpec parseDate p' rest
+    | .ok p' => overwritePreFix parseDate p' rest
 
 /-- A params object that spells out all four "always assigned" keys. -/
 def ParamsJson.complete (j : ParamsJson) : Bool :=
